@@ -4,6 +4,7 @@ import (
 	"encoding/json"
 	"fmt"
 	"reflect"
+	"strconv"
 	"strings"
 
 	"github.com/akrennmair/updog"
@@ -161,6 +162,10 @@ func privateDump(q *updog.Query) string {
 }
 
 // c08Play executes the sequence on fresh Query values and checks every step (or only the last one).
+// c08Scribble: the caller overwrites every Result it got (it owns it) instead of keeping it: whatever a Query or an index
+// remembers of an earlier answer must not alias what was handed out.
+var c08Scribble bool
+
 func c08Play(w *c08World, steps []c08Step, onlyLast bool) (viol string, key string) {
 	qs := c08Queries()
 	live := make([]*updog.Query, len(qs))
@@ -194,8 +199,20 @@ func c08Play(w *c08World, steps []c08Step, onlyLast bool) (viol string, key stri
 				return fmt.Sprintf("the Result returned by step %d changed after step %d: it was %s, now it reads %s", h.step, n+1, h.text, now), ""
 			}
 		}
-		if res != nil && rerr == nil {
+		if res != nil && rerr == nil && !c08Scribble {
 			kept = append(kept, held{res, got, n + 1})
+		}
+		if res != nil && c08Scribble {
+			res.Count = 4242
+			for i, j := 0, len(res.Groups)-1; i < j; i, j = i+1, j-1 {
+				res.Groups[i], res.Groups[j] = res.Groups[j], res.Groups[i]
+			}
+			for i := range res.Groups {
+				res.Groups[i].Count = 7
+				for k := range res.Groups[i].Fields {
+					res.Groups[i].Fields[k] = updog.ResultField{Column: "scribbled", Value: "by the caller"}
+				}
+			}
 		}
 		if onlyLast && n < len(steps)-1 {
 			continue
@@ -256,6 +273,14 @@ func c08Worker(ctx *rt.Ctx, job *rt.Job) []*rt.Violation {
 			if viol, _ := c08Play(w, steps, true); viol != "" {
 				c := c08Case{Steps: steps}
 				vs = append(vs, rt.NewViolation("C08", "reuse", c.sig(), c, "%s", viol))
+				return false
+			}
+			c08Scribble = true
+			viol, _ := c08Play(w, steps, true)
+			c08Scribble = false
+			if viol != "" {
+				c := c08Case{Steps: steps, Edited: "scribble"}
+				vs = append(vs, rt.NewViolation("C08", "reuse", c.sig()+" (the caller overwrites every Result it receives)", c, "%s (the caller overwrites every Result it receives)", viol))
 				return false
 			}
 			if n++; n%512 == 0 && ctx.Expired() {
@@ -330,6 +355,11 @@ func c08Run(ctx *rt.Ctx) []*rt.Violation {
 		}
 		frontier = next
 		ctx.Cov.Max("max_depth", int64(depth))
+		if len(seen) > 20000 {
+			// (seen on changed code that keeps history-dependent state in the Query: nothing merges any more)
+			ctx.Cov.Cap(fmt.Sprintf("BFS stopped at depth %d with %d states", depth, len(seen)))
+			break
+		}
 		if depth >= 12 || ctx.Expired() {
 			ctx.Cov.Cap(fmt.Sprintf("BFS stopped at depth %d", depth))
 			break
@@ -353,6 +383,13 @@ func c08Run(ctx *rt.Ctx) []*rt.Violation {
 	// new content (on the cached and on the uncached index)
 	if len(vs) == 0 {
 		if v := c08Edited(ctx, w); v != nil {
+			vs = append(vs, v)
+		}
+	}
+	// (4) one Query grouped by a column with exactly 2^16 (and 2^16 - 1, 2^16 + 1) distinct values, executed on two indexes
+	// whose equally named, equally large columns hold different values
+	if len(vs) == 0 {
+		if v := c08BigColumn(ctx); v != nil {
 			vs = append(vs, v)
 		}
 	}
@@ -425,6 +462,45 @@ func c08Edited(ctx *rt.Ctx, w *c08World) *rt.Violation {
 	return nil
 }
 
+func c08BigColumn(ctx *rt.Ctx) *rt.Violation {
+	for _, n := range []int{1<<16 - 1, 1 << 16, 1<<16 + 1} {
+		var idx [2]*updog.Index
+		for i := 0; i < 2; i++ {
+			i := i
+			p, _, err := ix.BuildFunc(ctx.Scratch, n, func(r int) model.Row {
+				return model.Row{"big": fmt.Sprintf("%c%06d", 'p'+i, r), "k": strconv.Itoa(r % 3)}
+			}, ix.MemFile)
+			if err != nil {
+				rt.Harnessf("build: %v", err)
+			}
+			defer removeFile(p)
+			idx[i], err = ix.Open(p, false, nil)
+			if err != nil {
+				rt.Harnessf("open: %v", err)
+			}
+			defer idx[i].Close()
+		}
+		mk := func() *updog.Query {
+			return &updog.Query{Expr: model.Eq("k", "1").Updog(), GroupBy: []string{"big"}}
+		}
+		q := mk()
+		for step, i := range []int{0, 1, 0} {
+			got, gerr := idx[i].Execute(q)
+			want, werr := idx[i].Execute(mk())
+			ctx.Cov.Add("big_column_executions", 1)
+			if (gerr == nil) != (werr == nil) || (gerr == nil && !reflect.DeepEqual(got, want)) {
+				first := ""
+				if gerr == nil && werr == nil && len(got.Groups) > 0 && len(want.Groups) > 0 {
+					first = fmt.Sprintf(" (first group %v, fresh query %v)", got.Groups[0], want.Groups[0])
+				}
+				c := c08Case{Edited: "bigcolumn"}
+				return rt.NewViolation("C08", "reuse", fmt.Sprintf("bigcolumn values=%d step=%d", n, step+1), c, "a Query grouped by a column with %d values, executed on index A, then B, then A: execution %d differs from a fresh equal query%s", n, step+1, first)
+			}
+		}
+	}
+	return nil
+}
+
 func c08Replay(ctx *rt.Ctx, v *rt.Violation) *rt.Violation {
 	var c c08Case
 	if err := json.Unmarshal(v.Case, &c); err != nil {
@@ -432,6 +508,17 @@ func c08Replay(ctx *rt.Ctx, v *rt.Violation) *rt.Violation {
 	}
 	w := newC08World(ctx)
 	defer w.close()
+	if c.Edited == "bigcolumn" {
+		return c08BigColumn(ctx)
+	}
+	if c.Edited == "scribble" {
+		c08Scribble = true
+		defer func() { c08Scribble = false }()
+		if viol, _ := c08Play(w, c.Steps, true); viol != "" {
+			return rt.NewViolation("C08", "reuse", c.sig()+" (the caller overwrites every Result it receives)", c, "%s (the caller overwrites every Result it receives)", viol)
+		}
+		return nil
+	}
 	if c.Edited != "" {
 		return c08Edited(ctx, w)
 	}
